@@ -432,14 +432,20 @@ func (m *Sim) Sleep(d time.Duration) {
 	m.S.Yield()
 }
 
+// payload returns the deterministic content of message msg of stream sid: a pseudo-random
+// byte sequence seeded by (sid, msg), so that neither messages nor their fragments collide.
 func payload(sid uint16, msg int, n int) []byte {
 	b := make([]byte, n)
+	x := uint32(sid)*2654435761 + uint32(msg)*40503 + 12345
 	for i := range b {
-		b[i] = byte(int(sid)*131 + msg*31 + i*7 + 3)
+		x = x*1664525 + 1013904223
+		b[i] = byte(x >> 24)
 	}
 	if n >= 4 {
-		// make messages of one stream pairwise distinct
 		b[0], b[1], b[2] = byte(msg), byte(msg>>8), byte(int(sid)+msg>>16)
+	}
+	if n == 1 {
+		b[0] = byte(int(sid)*131 + msg*31 + 3)
 	}
 	return b
 }
